@@ -11,8 +11,9 @@
      C06_library_links     every state reached by import (distinct keys) + any history, ctx = title of each
                            note's current first heading, for the text to_markdown answers
      C06_second_pass_links the re-read of the written text (Reparse.rr) on the decidable class [occ_stable]
-   with the witnesses C06_inline_dir_refuted / C06_library_inline_dir_refuted (F-INLINEDIR),
-   C06_block_kind_refuted, C06_block_md_refuted, C06_second_pass_kind_refuted, and [links_of_dlinks]: the list
+   with the examples C06_inline_dir_repaired / C06_library_inline_dir_repaired (F-INLINEDIR, repaired: an inline
+   link is kept by the key it names from the note's directory and titled by that note), the witnesses
+   C06_inline_kind_refuted, C06_block_kind_refuted, C06_second_pass_kind_refuted, and [links_of_dlinks]: the list
    the per-run check compares (Check_Norm.links_of) is a projection of [dlinks]. *)
 From IweV Require Import Str Text Ast RelPath RelPathFacts RelPathLaws Arena Project Library SectionsSpec
   BuilderFacts Check_Norm NormFacts SectionsFacts HistoryWF HistoryText Reparse ReparseFacts.
@@ -119,12 +120,16 @@ Fixpoint tree_occ (t : tree) {struct t} : list occ :=
 
 (* ---------- the three steps, on one occurrence ------------------------------------------------------------- *)
 
-(* reading (to_ginline; SectionsBuilder for block references) *)
+(* reading (to_ginline; SectionsBuilder for block references): a note link is kept by the key it names from
+   the note's directory, inline links and block references alike; an inline link whose key reads as an external
+   url (`./mailto:x` -> `mailto:x`) is an external link from then on *)
 Definition read_occ (dir : string) (o : occ) : occ :=
   match o_kind o with
-  | KNote lt => Occ (KNote lt) (o_alt o) (strip_md (o_dest o)) (map to_ginline (o_text o))
+  | KNote lt =>
+      let K := from_rel_link_url (o_dest o) dir in
+      Occ (inline_kind lt K) (o_alt o) K (map (to_ginline dir) (o_text o))
   | KBlock lt => Occ (KBlock lt) false (from_rel_link_url (o_dest o) dir) [Str (inlines_plain_text (o_text o))]
-  | k => Occ k (o_alt o) (o_dest o) (map to_ginline (o_text o))
+  | k => Occ k (o_alt o) (o_dest o) (map (to_ginline dir) (o_text o))
   end.
 
 (* title refresh (GraphInline::normalize, GraphNodePointer::node) *)
@@ -148,14 +153,18 @@ Definition refresh_occ (ctx : titles) (o : occ) : occ :=
   | _ => o
   end.
 
-(* writing (Projector) *)
+(* writing (Projector): block references and inline note links are written relative to the note
+   (`to_rel_link_url`, GraphInline::relative_to), through link and image texts *)
 Definition write_occ (parent : string) (o : occ) : occ :=
   match o_kind o with
   | KBlock rt =>
       let u := to_rel_link_url (o_dest o) parent in
       Occ (if is_ref_url u then KBlock rt else KExt rt) false u
           match rt with WikiLink => [] | _ => o_text o end
-  | _ => o
+  | KNote lt =>
+      let u := to_rel_link_url (key_name (o_dest o)) parent in
+      Occ (inline_kind lt u) (o_alt o) u (map (rel_inline parent) (o_text o))
+  | k => Occ k (o_alt o) (o_dest o) (map (rel_inline parent) (o_text o))
   end.
 
 Definition format_occ (ctx : titles) (dir : string) (o : occ) : occ :=
@@ -246,9 +255,9 @@ Proof.
 Qed.
 
 (* reading *)
-Lemma read_inline dir : forall i a, inline_occ a (to_ginline i) = map (read_occ dir) (inline_occ a i).
+Lemma read_inline dir : forall i a, inline_occ a (to_ginline dir i) = map (read_occ dir) (inline_occ a i).
 Proof.
-  apply (inline_ind' (fun i => forall a, inline_occ a (to_ginline i) = map (read_occ dir) (inline_occ a i)));
+  apply (inline_ind' (fun i => forall a, inline_occ a (to_ginline dir i) = map (read_occ dir) (inline_occ a i)));
     intros; try reflexivity.
   - cbn [to_ginline]. rewrite !inline_occ_emph. apply inlines_occ_map.
     eapply Forall_impl; [|exact H]. intros i Hi. apply Hi.
@@ -258,7 +267,7 @@ Proof.
     eapply Forall_impl; [|exact H]. intros i Hi. apply Hi.
   - cbn [to_ginline]. rewrite !inline_occ_link. cbn [map]. unfold inline_kind, read_occ.
     destruct (is_ref_url u) eqn:E; cbn [o_kind o_alt o_dest o_text].
-    + now rewrite (is_ref_url_trim u E).
+    + reflexivity.
     + now rewrite E.
   - cbn [to_ginline]. rewrite !inline_occ_image. cbn [map]. f_equal.
     apply inlines_occ_map. eapply Forall_impl; [|exact H]. intros i Hi. apply Hi.
@@ -399,22 +408,37 @@ Fixpoint leaf_ok (t : tree) {struct t} : bool :=
 Section Write.
   Variable parent : string.
 
-  Lemma write_inl o : inl_kind o -> write_occ parent o = o.
-  Proof. destruct o as [k a d t]. unfold inl_kind, write_occ. cbn. destruct k; tauto. Qed.
-
-  Lemma write_inlines a l : map (write_occ parent) (inlines_occ a l) = inlines_occ a l.
+  Lemma write_inline : forall i a, inline_occ a (rel_inline parent i) = map (write_occ parent) (inline_occ a i).
   Proof.
-    unfold inlines_occ. induction l as [|x l IH]; cbn [flat_map]; [reflexivity|].
-    rewrite map_app, IH. f_equal. pose proof (inline_occ_kinds x a) as H.
-    induction H as [|o r Ho _ IHr]; [reflexivity|]. cbn [map]. now rewrite write_inl, IHr.
+    apply (inline_ind' (fun i => forall a, inline_occ a (rel_inline parent i) = map (write_occ parent) (inline_occ a i)));
+      intros; try reflexivity.
+    - cbn [rel_inline]. rewrite !inline_occ_emph. apply inlines_occ_map.
+      eapply Forall_impl; [|exact H]. intros i Hi. apply Hi.
+    - cbn [rel_inline]. rewrite !inline_occ_strong. apply inlines_occ_map.
+      eapply Forall_impl; [|exact H]. intros i Hi. apply Hi.
+    - cbn [rel_inline]. rewrite !inline_occ_strike. apply inlines_occ_map.
+      eapply Forall_impl; [|exact H]. intros i Hi. apply Hi.
+    - cbn [rel_inline]. rewrite !inline_occ_link. cbn [map]. unfold inline_kind at 2, write_occ.
+      destruct (is_ref_url u) eqn:E; cbn [o_kind o_alt o_dest o_text].
+      + reflexivity.
+      + unfold inline_kind. now rewrite E.
+    - cbn [rel_inline]. rewrite !inline_occ_image. cbn [map]. f_equal.
+      apply inlines_occ_map. eapply Forall_impl; [|exact H]. intros i Hi. apply Hi.
   Qed.
 
-  Lemma write_cells h rows : map (write_occ parent) (cells_occ h rows) = cells_occ h rows.
+  Lemma write_inlines a l : inlines_occ a (rel_inlines parent l) = map (write_occ parent) (inlines_occ a l).
+  Proof. unfold rel_inlines. apply inlines_occ_map. apply Forall_forall. intros i _. apply write_inline. Qed.
+
+  Lemma write_cells h rows :
+    cells_occ (map (rel_inlines parent) h) (map (map (rel_inlines parent)) rows) = map (write_occ parent) (cells_occ h rows).
+  Proof. apply (cells_occ_map (rel_inlines parent)). intros l. apply write_inlines. Qed.
+
+  (* a paragraph that is not a block reference is not written as one *)
+  Lemma para_is_ref_rel l : para_is_ref l = false -> para_is_ref (rel_inlines parent l) = false.
   Proof.
-    unfold cells_occ. rewrite map_app. f_equal.
-    - induction h as [|c h IH]; cbn [flat_map]; [reflexivity|]. now rewrite map_app, write_inlines, IH.
-    - induction rows as [|r rows IH]; cbn [flat_map]; [reflexivity|]. rewrite map_app, IH. f_equal.
-      induction r as [|c r IHr]; cbn [flat_map]; [reflexivity|]. now rewrite map_app, write_inlines, IHr.
+    unfold rel_inlines. intros E. destruct l as [|i r]; [reflexivity|].
+    destruct i; try reflexivity. destruct r; [|reflexivity].
+    cbn [map rel_inline para_is_ref] in *. now rewrite E.
   Qed.
 
   Definition W1 (t : tree) : Prop := forall hl, glinks (project_node parent hl t) = map (write_occ parent) (tree_occ t).
@@ -436,7 +460,7 @@ Section Write.
   Proof.
     induction 1 as [|t c Ht _ IH]; cbn [map flat_map]; [reflexivity|].
     rewrite IH, map_app. f_equal. destruct t as [i cn ck]. cbn [item_of t_children titem_occ] in *.
-    rewrite map_app, write_inlines, <- (Ht 0).
+    rewrite map_app, <- write_inlines, <- (Ht 0). unfold out_inlines.
     destruct (first_is_leaf ck); reflexivity.
   Qed.
 
@@ -453,9 +477,9 @@ Section Write.
     intros hl. destruct n; cbn [project_node tree_occ].
     - (* document *) apply Kc.
     - (* section *)
-      change (GHeader (hl + 1) l :: flat_map (project_node parent (hl + 1)) c)
-        with ([GHeader (hl + 1) l] ++ flat_map (project_node parent (hl + 1)) c).
-      rewrite glinks_app, glinks_one, map_app, write_inlines, Kc. reflexivity.
+      change (GHeader (hl + 1) (rel_inlines parent l) :: flat_map (project_node parent (hl + 1)) c)
+        with ([GHeader (hl + 1) (rel_inlines parent l)] ++ flat_map (project_node parent (hl + 1)) c).
+      rewrite glinks_app, glinks_one, map_app, <- write_inlines, Kc. reflexivity.
     - (* quote *)
       rewrite <- (Kc 0).
       destruct (flat_map (project_node parent 0) c) as [|g q] eqn:E; [reflexivity|].
@@ -467,8 +491,8 @@ Section Write.
       destruct c as [|c0 c]; [reflexivity|].
       rewrite glinks_one, (proj2 (gblock_occ_lists _)). apply (items_occ (c0 :: c) HK).
     - (* leaf *)
-      rewrite glinks_one, write_inlines. cbn [gblock_occ]. apply para_occ_plain.
-      now apply negb_true_iff in Hn.
+      rewrite glinks_one, <- write_inlines. cbn [gblock_occ]. apply para_occ_plain.
+      apply para_is_ref_rel. now apply negb_true_iff in Hn.
     - reflexivity.
     - reflexivity.
     - (* reference *)
@@ -478,7 +502,7 @@ Section Write.
       + unfold inlines_occ. cbn [flat_map]. rewrite inline_occ_link. unfold inline_kind. rewrite E.
         destruct rt; reflexivity.
     - (* table *)
-      rewrite glinks_one, write_cells. reflexivity.
+      rewrite glinks_one, <- write_cells. reflexivity.
   Qed.
 
   Theorem written_occ (t : tree) : leaf_ok t = true -> glinks (project parent t) = map (write_occ parent) (tree_occ t).
@@ -815,41 +839,50 @@ Print Assumptions written_links.
 (* ---------- the rule of C06 for one occurrence ------------------------------------------------------------------------ *)
 
 (* [d]: an occurrence of the reader's blocks of a note in directory [dir]; [g]: the occurrence written for it.
-   The destination of [d] is url text as typed (with or without one `.md`); the destination of [g] is what the
-   graph holds, a key-like path (nothing is taken off it any more: `Key::name`), which the writer turns into url
-   text again with `ref_url` (the configured extension, and `.md` all the same where the path ends in `.md`).
-   - inline note link: same kind and place, destination without ONE `.md`; taken as a path it leads from [dir]
-     to the key the typed url resolves to, and so does what is written for it with either extension;
-     the text of a REGULAR link outside an image description is the title [ctx] has for
-     [key_from_file_name (destination)] - the destination itself, WITHOUT the note's directory (F-INLINEDIR) -
-     when there is one, and is kept otherwise; bare wiki links have no text, piped ones keep theirs; the refresh
-     does not enter image descriptions;
-   - external link, image: unchanged (to_ginline only takes `.md` off destinations of links nested in the text);
+   The destination of [d] is url text as typed (with or without one `.md`); the graph holds the KEY K the url
+   names from [dir] (`Key::from_rel_link_url`), for inline links and block references alike, and the projector
+   writes the path of K relative to [dir] (`to_rel_link_url`), which the writer turns into url text again with
+   `ref_url` (the configured extension, and `.md` all the same where the path ends in `.md`).
+   - inline note link: same place; the destination is the path, relative to [dir], of K; it leads from [dir] to
+     K again, and what is written for it resolves to K again with either extension - EVERY K (C15_rewrite_key /
+     C15_rewrite_written); the link is a note link again unless that path is not a note url;
+     the text of a REGULAR link outside an image description is the title [ctx] has for K - the note the link
+     resolves to from the note's directory (F-INLINEDIR, repaired: it was the note named by the destination text
+     alone) - when there is one, and is kept otherwise; bare wiki links have no text, piped ones keep theirs; the
+     refresh does not enter image descriptions.  The one exception is the one block references have: a url that
+     does not START with a scheme but whose key does (`./mailto:x` -> `mailto:x`) is an external link from the
+     graph on, nothing is refreshed or made relative;
+   - external link, image: unchanged; a kept text is written with the note links inside it by key and relative
+     again ([kept_text]);
    - block reference: the destination is the path, relative to [dir], of the key K the reference resolves to from
      [dir]; it leads to K again, and what is written for it resolves to K again - EVERY K, also one ending in
      `.md` (C15_rewrite_key / C15_rewrite_written; in the pinned tree a K ending in `.md` was lost); it is written
      as a paragraph of one link, which is a block reference again unless that url is not a note url; the text of
      a regular reference is the title of K when there is one and the plain text otherwise. *)
+Definition kept_text (dir : string) (l : list inline) : list inline := map (rel_inline dir) (map (to_ginline dir) l).
+
 Definition link_rule (ctx : titles) (dir : string) (d g : occ) : Prop :=
   match o_kind d with
   | KNote lt =>
-      o_kind g = KNote lt /\ o_alt g = o_alt d /\
-      o_dest g = strip_md (o_dest d) /\
-      join_normalized dir (o_dest g) = from_rel_link_url (o_dest d) dir /\
-      (forall ext, ext = MD \/ ext = "" ->
-         from_rel_link_url (ref_url (o_dest g) ext) dir = from_rel_link_url (o_dest d) dir) /\
+      let K := from_rel_link_url (o_dest d) dir in
+      o_alt g = o_alt d /\
+      o_dest g = (if is_ref_url K then to_rel_link_url K dir else K) /\
+      o_kind g = inline_kind lt (o_dest g) /\
+      (is_ref_url K = true ->
+         join_normalized dir (o_dest g) = K /\
+         (forall ext, ext = MD \/ ext = "" -> from_rel_link_url (ref_url (o_dest g) ext) dir = K)) /\
       o_text g =
-        if o_alt d then map to_ginline (o_text d)
+        if o_alt d || negb (is_ref_url K) then kept_text dir (o_text d)
         else match lt with
-             | Regular => match ctx (key_from_file_name (o_dest d)) with
+             | Regular => match ctx K with
                           | Some t => [Str t]
-                          | None => map to_ginline (o_text d)
+                          | None => kept_text dir (o_text d)
                           end
              | WikiLink => []
-             | WikiLinkPiped => map to_ginline (o_text d)
+             | WikiLinkPiped => kept_text dir (o_text d)
              end
-  | KExt lt => g = Occ (KExt lt) (o_alt d) (o_dest d) (map to_ginline (o_text d))
-  | KImage => g = Occ KImage (o_alt d) (o_dest d) (map to_ginline (o_text d))
+  | KExt lt => g = Occ (KExt lt) (o_alt d) (o_dest d) (kept_text dir (o_text d))
+  | KImage => g = Occ KImage (o_alt d) (o_dest d) (kept_text dir (o_text d))
   | KBlock lt =>
       let K := from_rel_link_url (o_dest d) dir in
       o_alt g = false /\ o_dest g = to_rel_link_url K dir /\
@@ -870,12 +903,26 @@ Lemma format_rule ctx dir d : link_rule ctx dir d (format_occ ctx dir d).
 Proof.
   destruct d as [k a u l]. unfold link_rule, format_occ. destruct k as [lt|lt| |lt]; cbn [o_kind o_alt o_dest o_text read_occ].
   - (* inline note link *)
-    unfold refresh_occ. cbn [o_kind o_alt o_dest o_text].
-    assert (Ew : forall ext, ext = MD \/ ext = "" ->
-              from_rel_link_url (ref_url (strip_md u) ext) dir = from_rel_link_url u dir).
-    { intros ext He. unfold from_rel_link_url. now rewrite strip_md_ref_url. }
-    destruct a; unfold write_occ; cbn [o_kind o_alt o_dest o_text];
-      repeat split; try reflexivity; exact Ew.
+    assert (EN : forall x, key_name x = x) by reflexivity.
+    destruct (is_ref_url (from_rel_link_url u dir)) eqn:EK.
+    + replace (inline_kind lt (from_rel_link_url u dir)) with (KNote lt) by (unfold inline_kind; now rewrite EK).
+      rewrite orb_false_r.
+      destruct a.
+      * unfold refresh_occ. cbn [o_kind o_alt o_dest o_text]. unfold write_occ. cbn [o_kind o_alt o_dest o_text].
+        rewrite EN.
+        split; [reflexivity|]. split; [reflexivity|]. split; [reflexivity|].
+        split; [intros _; split; [apply C15_rewrite_key | intros ext He; now apply C15_rewrite_written]|].
+        reflexivity.
+      * unfold refresh_occ. cbn [o_kind o_alt o_dest o_text]. unfold write_occ. cbn [o_kind o_alt o_dest o_text].
+        rewrite !EN.
+        split; [reflexivity|]. split; [reflexivity|]. split; [reflexivity|].
+        split; [intros _; split; [apply C15_rewrite_key | intros ext He; now apply C15_rewrite_written]|].
+        destruct lt; [destruct (ctx (from_rel_link_url u dir))|..]; reflexivity.
+    + replace (inline_kind lt (from_rel_link_url u dir)) with (KExt lt) by (unfold inline_kind; now rewrite EK).
+      rewrite orb_true_r.
+      unfold refresh_occ. cbn [o_kind o_alt o_dest o_text]. unfold write_occ. cbn [o_kind o_alt o_dest o_text].
+      split; [reflexivity|]. split; [reflexivity|]. split; [unfold inline_kind; now rewrite EK|].
+      split; [discriminate|]. reflexivity.
   - reflexivity.
   - reflexivity.
   - (* block reference *)
@@ -887,20 +934,31 @@ Proof.
     + destruct lt; reflexivity.
 Qed.
 
-(* what "unchanged" means for a kept text: same plain text (only destinations of nested links lose `.md`) *)
-Lemma plain_text_read : forall i, plain_text (to_ginline i) = plain_text i.
+(* what "unchanged" means for a kept text: same plain text (only destinations of nested links move) *)
+Lemma plain_text_read dir : forall i, plain_text (to_ginline dir i) = plain_text i.
 Proof.
-  assert (HL : forall l, Forall (fun i => plain_text (to_ginline i) = plain_text i) l ->
-    (fix go (l : list inline) : string := match l with [] => "" | x :: r => plain_text x +++ go r end) (map to_ginline l) =
+  assert (HL : forall l, Forall (fun i => plain_text (to_ginline dir i) = plain_text i) l ->
+    (fix go (l : list inline) : string := match l with [] => "" | x :: r => plain_text x +++ go r end) (map (to_ginline dir) l) =
     (fix go (l : list inline) : string := match l with [] => "" | x :: r => plain_text x +++ go r end) l).
   { induction 1 as [|x l Hx _ IH]; cbn [map]; [reflexivity | now rewrite Hx, IH]. }
-  apply (inline_ind' (fun i => plain_text (to_ginline i) = plain_text i)); intros; try reflexivity;
+  apply (inline_ind' (fun i => plain_text (to_ginline dir i) = plain_text i)); intros; try reflexivity;
     cbn [to_ginline plain_text]; now apply HL.
 Qed.
 
-Lemma kept_text_plain l : inlines_plain_text (map to_ginline l) = inlines_plain_text l.
+Lemma plain_text_rel dir : forall i, plain_text (rel_inline dir i) = plain_text i.
 Proof.
-  unfold inlines_plain_text. induction l as [|x l IH]; cbn [map sconcat]; [reflexivity|]. now rewrite plain_text_read, IH.
+  assert (HL : forall l, Forall (fun i => plain_text (rel_inline dir i) = plain_text i) l ->
+    (fix go (l : list inline) : string := match l with [] => "" | x :: r => plain_text x +++ go r end) (map (rel_inline dir) l) =
+    (fix go (l : list inline) : string := match l with [] => "" | x :: r => plain_text x +++ go r end) l).
+  { induction 1 as [|x l Hx _ IH]; cbn [map]; [reflexivity | now rewrite Hx, IH]. }
+  apply (inline_ind' (fun i => plain_text (rel_inline dir i) = plain_text i)); intros; try reflexivity;
+    cbn [rel_inline plain_text]; now apply HL.
+Qed.
+
+Lemma kept_text_plain dir l : inlines_plain_text (kept_text dir l) = inlines_plain_text l.
+Proof.
+  unfold inlines_plain_text, kept_text. induction l as [|x l IH]; cbn [map sconcat]; [reflexivity|].
+  now rewrite plain_text_rel, plain_text_read, IH.
 Qed.
 
 Lemma Forall2_map_fun {A B} (R : A -> B -> Prop) (f : A -> B) l : (forall x, R x (f x)) -> Forall2 R l (map f l).
@@ -919,50 +977,83 @@ Proof.
 Qed.
 Print Assumptions C06_note_links.
 
-(* where the key an inline link is refreshed by IS the key it resolves to, the text is the title of the note
-   the written link resolves to *)
+(* the text of a regular inline link is the title of the note the WRITTEN link resolves to from the note's
+   directory - every directory, every url (before the repair of F-INLINEDIR: only where the destination text is
+   the key it resolves to, i.e. in the library root and for canonical urls) *)
 Corollary C06_inline_resolved ctx dir d g :
   link_rule ctx dir d g -> o_kind d = KNote Regular -> o_alt d = false ->
-  key_from_file_name (o_dest d) = from_rel_link_url (o_dest d) dir ->
+  is_ref_url (from_rel_link_url (o_dest d) dir) = true ->
   o_text g = match ctx (join_normalized dir (o_dest g)) with
              | Some t => [Str t]
-             | None => map to_ginline (o_text d)
+             | None => kept_text dir (o_text d)
              end.
 Proof.
-  unfold link_rule. intros H Hk Ha E. rewrite Hk in H. destruct H as (_ & _ & _ & Hr & _ & Ht).
-  rewrite Ha in Ht. now rewrite Hr, <- E.
+  unfold link_rule. intros H Hk Ha E. rewrite Hk in H. destruct H as (_ & _ & _ & Hr & Ht).
+  rewrite Ha, E in Ht. cbn [orb negb] in Ht. destruct (Hr E) as [Hj _]. now rewrite Hj.
+Qed.
+
+(* the rule for an inline note link, spelled out: destination, resolution and text all speak of K, the note the
+   typed url names from the note's directory *)
+Corollary C06_inline_rule ctx dir d g lt :
+  link_rule ctx dir d g -> o_kind d = KNote lt ->
+  let K := from_rel_link_url (o_dest d) dir in
+  is_ref_url K = true ->
+  o_dest g = to_rel_link_url K dir /\
+  join_normalized dir (o_dest g) = K /\
+  (forall ext, ext = MD \/ ext = "" -> from_rel_link_url (ref_url (o_dest g) ext) dir = K) /\
+  (o_alt d = false ->
+   o_text g = match lt with
+              | Regular => match ctx K with Some t => [Str t] | None => kept_text dir (o_text d) end
+              | WikiLink => []
+              | WikiLinkPiped => kept_text dir (o_text d)
+              end).
+Proof.
+  unfold link_rule. intros H Hk. cbv zeta. intros E. rewrite Hk in H. cbv zeta in H.
+  destruct H as (_ & Hd & _ & Hr & Ht).
+  rewrite E in Hd, Ht. destruct (Hr E) as [Hj Hw].
+  split; [exact Hd|]. split; [exact Hj|]. split; [exact Hw|].
+  intros Ha. rewrite Ha in Ht. exact Ht.
 Qed.
 
 (* what is written for a note link or a block reference resolves, from [dir], to the key the typed url resolved
-   to: either extension, every key *)
+   to: either extension, every key (for an inline link: every key that is a note url, see [link_rule]) *)
 Corollary C06_written_resolves ctx dir d g ext :
   link_rule ctx dir d g ->
-  match o_kind d with KNote _ | KBlock _ => True | _ => False end ->
+  match o_kind d with
+  | KNote _ => is_ref_url (from_rel_link_url (o_dest d) dir) = true
+  | KBlock _ => True
+  | _ => False
+  end ->
   ext = MD \/ ext = "" ->
   from_rel_link_url (ref_url (o_dest g) ext) dir = from_rel_link_url (o_dest d) dir.
 Proof.
   unfold link_rule. intros H Hk He. destruct (o_kind d); try contradiction.
-  - destruct H as (_ & _ & _ & _ & Hw & _). now apply Hw.
+  - destruct H as (_ & _ & _ & Hr & _). destruct (Hr Hk) as [_ Hw]. now apply Hw.
   - destruct H as (_ & _ & _ & _ & Hw & _). now apply Hw.
 Qed.
 
-(* F-INLINEDIR: in a note of a sub-directory the title of an inline link comes from another note than the one the
-   link resolves to: `b.md` in note d/n resolves to d/b (title SUB) and is given the title of b (TOP); the block
-   reference with the same destination, two lines further, is given SUB *)
+(* F-INLINEDIR (repaired; the witness of the finding is an instance of the rule now): in the note d/n the inline
+   link `b.md` resolves to d/b (title SUB) and is given that title, like the block reference with the same
+   destination two lines further - in the pinned tree it was given the title of b (TOP) *)
 Definition fd_ctx : titles := fun k => if String.eqb k "b" then Some "TOP" else if String.eqb k "d/b" then Some "SUB" else None.
 Definition fd_bs : list dblock :=
   [DPara (0, 1) [Str "see "; Link "b.md" "" Regular [Str "x"]]; DPara (2, 3) [Link "b.md" "" Regular [Str "x"]]].
 
-Theorem C06_inline_dir_refuted :
-  exists ctx key bs d g t,
-    In (d, g) (combine (dlinks bs) (glinks (written ctx key bs))) /\
-    o_kind d = KNote Regular /\ o_alt d = false /\
-    ctx (join_normalized (key_parent key) (o_dest g)) = Some t /\ o_text g <> [Str t].
+Example C06_inline_dir_repaired :
+  glinks (written fd_ctx "d/n" fd_bs) =
+    [Occ (KNote Regular) false "b" [Str "SUB"]; Occ (KBlock Regular) false "b" [Str "SUB"]] /\
+  glinks (written fd_ctx "n" fd_bs) =
+    [Occ (KNote Regular) false "b" [Str "TOP"]; Occ (KBlock Regular) false "b" [Str "TOP"]].
+Proof. split; vm_compute; reflexivity. Qed.
+
+(* an inline link whose key reads as an external url is one from the graph on, exactly as for block references
+   (next witness): `./mailto:x` is a note url (it does not START with mailto:), its key is `mailto:x` *)
+Theorem C06_inline_kind_refuted :
+  exists ctx key bs lt, dlinks bs = [Occ (KNote lt) false "./mailto:x" [Str "m"]] /\
+    glinks (written ctx key bs) = [Occ (KExt lt) false "mailto:x" [Str "m"]].
 Proof.
-  exists fd_ctx, "d/n", fd_bs, (Occ (KNote Regular) false "b.md" [Str "x"]), (Occ (KNote Regular) false "b" [Str "TOP"]), "SUB".
-  split; [vm_compute; auto|]. repeat split. vm_compute. discriminate.
+  exists (fun _ => None), "n", [DPara (0, 1) [Str ""; Link "./mailto:x" "" Regular [Str "m"]]], Regular. split; reflexivity.
 Qed.
-Print Assumptions C06_inline_dir_refuted.
 
 (* the written paragraph of a block reference is not always a block reference again: `./mailto:x` is a note url
    (it does not START with mailto:), its key is `mailto:x`, and the url written for that key is `mailto:x` *)
@@ -1075,20 +1166,19 @@ Proof.
   vm_compute. repeat (constructor; [cbn [In]; intros H; repeat (destruct H as [H|H]; [discriminate H|]); exact H|]). constructor.
 Qed.
 
-(* F-INLINEDIR on the library: both links of d/n have the destination `b.md` and resolve to d/b; the block
-   reference is given the title of d/b, the inline link the title of b *)
-Theorem C06_library_inline_dir_refuted :
-  exists notes, NoDup (map note_key notes) /\
-    match import notes with
+(* F-INLINEDIR on the library (repaired): both links of d/n have the destination `b.md` and resolve to d/b; both
+   are given the title of d/b (in the pinned tree the inline link was given the title of b, TOP) *)
+Example C06_library_inline_dir_repaired :
+  NoDup (map note_key lib3) /\
+    match import lib3 with
     | Ok g =>
         to_markdown (Opts ".md") [] g "d/n"
-        = Ok ("# N" +++ LFS +++ LFS +++ "see [TOP](b.md)" +++ LFS +++ LFS +++ "[SUB](b.md)" +++ LFS) /\
+        = Ok ("# N" +++ LFS +++ LFS +++ "see [SUB](b.md)" +++ LFS +++ LFS +++ "[SUB](b.md)" +++ LFS) /\
         from_rel_link_url "b.md" (key_parent "d/n") = "d/b" /\
         get_key_title g "d/b" = Some "SUB" /\ get_key_title g "b" = Some "TOP"
     | Panic _ => False
     end.
-Proof. exists lib3. split; [apply lib3_nodup|]. vm_compute. repeat split. Qed.
-Print Assumptions C06_library_inline_dir_refuted.
+Proof. split; [apply lib3_nodup|]. vm_compute. repeat split. Qed.
 
 (* non-vacuity: after a history that retitles d/b and removes the heading of b, the links of d/n follow *)
 Example C06_library_links_nonvacuous :
@@ -1097,9 +1187,9 @@ Example C06_library_links_nonvacuous :
       over (last_op lib3_ops) (last_op (ops_of lib3)) "d/n" = Some (None, DHeader (0, 1) 1 [Str "N"] :: fd_bs) /\
       get_key_title g "d/b" = Some "SUB2" /\ get_key_title g "b" = None /\
       glinks (project (key_parent "d/n") (tmap (norm_node (get_key_title g)) (spec_tree "d/n" (DHeader (0, 1) 1 [Str "N"] :: fd_bs))))
-      = [Occ (KNote Regular) false "b" [Str "x"]; Occ (KBlock Regular) false "b" [Str "SUB2"]] /\
+      = [Occ (KNote Regular) false "b" [Str "SUB2"]; Occ (KBlock Regular) false "b" [Str "SUB2"]] /\
       to_markdown (Opts ".md") [] g "d/n"
-      = Ok ("# N" +++ LFS +++ LFS +++ "see [x](b.md)" +++ LFS +++ LFS +++ "[SUB2](b.md)" +++ LFS)
+      = Ok ("# N" +++ LFS +++ LFS +++ "see [SUB2](b.md)" +++ LFS +++ LFS +++ "[SUB2](b.md)" +++ LFS)
   | Panic _ => False
   end.
 Proof. vm_compute. repeat split. Qed.
@@ -1439,13 +1529,13 @@ Example C06_second_pass_nonvacuous :
   map (fun x => (o_kind x, o_dest x, o_text x)) (dlinks ex_blocks) =
     [(KNote Regular, "a.md", [Str "old title"]); (KBlock Regular, "a", [Str "old"]); (KBlock WikiLink, "../x", [Str "../x"])] /\
   map (fun x => (o_kind x, o_dest x, o_text x)) (dlinks (rr ex_opts ex_written)) =
-    [(KNote Regular, "a.md", [Str "old title"]); (KBlock Regular, "a.md", [Str "Title A"]); (KBlock WikiLink, "../x", [Str "../x"])].
+    [(KNote Regular, "a.md", [Str "Title A"]); (KBlock Regular, "a.md", [Str "Title A"]); (KBlock WikiLink, "../x", [Str "../x"])].
 Proof. vm_compute. repeat split. Qed.
 
 (* the class is needed: an item that starts with an EMPTY quote (or any block the projector skips) and goes on
    with a block reference is written `- [SUB](b.md)`: the first line of the item has no text, the quote leaves
    nothing, so the reference is the first thing after the marker and is re-read as the TEXT of the item - an
-   inline link, which the next refresh keys without the directory (F-INLINEDIR).  Model level: this block list is
+   inline link (keyed and titled like the reference it was since the repair of F-INLINEDIR, so only the kind moves).  Model level: this block list is
    outside reparse_safe (headless_start), so rr is not validated against the reader there. *)
 Definition sp_bs : list dblock := [DBList [[DQuote (0, 1) []; DPara (2, 3) [Link "b" "" Regular [Str "x"]]]]].
 Theorem C06_second_pass_kind_refuted :
